@@ -89,17 +89,21 @@ def run(chk):
     acc = [s for s in F.body if isinstance(s, ast.For) and unparse(s.iter) == 'afs' and not contains(s, is_write)]
     oka = False
     wdef_ok = False
-    if acc:
-        af = acc[0].target.id
-        adds = [n for n in ast.walk(acc[0]) if isinstance(n, ast.AugAssign) and unparse(n.target) == cnt and isinstance(n.op, ast.Add)]
-        if len(adds) == 1:
+    # the count and the width may be computed in one loop over the files or in two
+    for lp_ in acc:
+        af = lp_.target.id
+        adds = [n for n in ast.walk(lp_) if isinstance(n, ast.AugAssign) and unparse(n.target) == cnt and isinstance(n.op, ast.Add)]
+        if len(adds) == 1 and not oka:
             v = adds[0].value
             if isinstance(v, ast.Name):
-                d = [n for n in acc[0].body if isinstance(n, ast.Assign) and unparse(n.targets[0]) == v.id]
+                d = [n for n in lp_.body if isinstance(n, ast.Assign) and unparse(n.targets[0]) == v.id]
                 v = d[0].value if d else v
-            oka = unparse(v) == f'np.prod({af}[data_key][{fld}].shape)'
-        wd = [n for n in ast.walk(acc[0]) if isinstance(n, ast.Assign) and unparse(n.targets[0]) == wid]
-        wdef_ok = len(wd) == 1 and unparse(wd[0].value) == f'np.int32({af}[data_key][{fld}].dtype.itemsize)'
+            oka = unparse(v) == f'np.prod({af}[data_key][{fld}].shape)' and any(x is adds[0] for x in lp_.body)
+        wd = [n for n in ast.walk(lp_) if isinstance(n, ast.Assign) and unparse(n.targets[0]) == wid]
+        if len(wd) == 1 and unparse(wd[0].value) == f'np.int32({af}[data_key][{fld}].dtype.itemsize)':
+            wdef_ok = True
+    nadds = sum(1 for lp_ in acc for n in ast.walk(lp_) if isinstance(n, ast.AugAssign) and unparse(n.target) == cnt)
+    oka = oka and nadds == 1
     chk.check(okc and oka, 'C20-R2', PA, Q, 'count = int64 sum over files of prod(shape) of this field', f'{cnt}',
               f'count header: initialised as {unparse(cdef[0].value) if cdef else None}, accumulation recognised={oka}: the 8-byte element count would be wrong', node=cdef[0] if cdef else F)
     chk.check(wdef_ok, 'C20-R2', PA, Q, 'width = int32 itemsize of this field', f'{wid}',
